@@ -897,7 +897,7 @@ class NodeFor:
                     else:
                         for i in range(len(self.identifiers)):
                             environment.remove(self.identifiers[i])
-            except CklRuntimeError:
+            except (CklRuntimeError, CklSyntaxError, RecursionError):
                 raise       # an error of the loop body, not of the input
             except Exception:
                 raise CklRuntimeError(
